@@ -562,6 +562,9 @@ class NF:
                 deps |= d
             return ", ".join(parts), deps
         p = self.poly(s, sc, at, depth)
+        if p.elems is not None and len(p.elems) >= 2 and isinstance(s, ast.Name):
+            # `idx = (s, a); table[idx]` indexes exactly like `table[s, a]`
+            return ", ".join(x.canon() for x in p.elems), p.deps
         return p.canon(), p.deps
 
     def _e_Tuple(self, e, sc, at, depth):
